@@ -29,6 +29,7 @@ CHECKS = {
     'microschc/crypto/crc.py': ['C09'],
     'microschc/rfc8724.py': ['C12', 'C04', 'C15', 'C01', 'C02'],
     'microschc/rfc8724extras.py': ['C12', 'C15'],
+    'microschc.py': ['C15', 'C16'],
 }
 CMP = {ast.Lt: ast.LtE, ast.LtE: ast.Lt, ast.Gt: ast.GtE, ast.GtE: ast.Gt, ast.Eq: ast.NotEq, ast.NotEq: ast.Eq, ast.Is: ast.IsNot, ast.IsNot: ast.Is,
        ast.In: ast.NotIn, ast.NotIn: ast.In}
